@@ -65,13 +65,24 @@ Check C08_insert_remove : forall p k v,
   (forall k', str_eqb k' k = false -> l_get (l_remove p k) k' = l_get p k').
 Print Assumptions C08_insert_remove.
 
-(* Non-vacuity, and necessity of the domain guards (each witness breaks the round trip). *)
+(* ... and for a single paragraph, through <lossy::Paragraph as FromStr>::from_str. *)
+Theorem C08_paragraph : forall p, canon_para p = true -> lossy_paragraph_from_str (print_para p) = Ok p.
+Proof. exact C08_paragraph_roundtrip. Qed.
+Check C08_paragraph : forall p, canon_para p = true -> lossy_paragraph_from_str (print_para p) = Ok p.
+Print Assumptions C08_paragraph.
+
+(* Non-vacuity, and necessity of the domain guards (each witness breaks the round trip).  The three
+   guards that exclude values the property's English admits - '#' continuation line, CR inside a
+   line, empty paragraph inside a document - are recorded finding classes (known_findings.jsonl). *)
 Example C08_ex_canon :
   let d := [[([65], [98; 32; 35; 58; 10; 99; 32]); ([66], [])]; [([67], [10; 120])]]%N in
   canon_doc d = true /\ lossy_from_str (print_doc d) = Ok d.
 Proof. vm_compute. split; reflexivity. Qed.
 Example C08_hash_guard_needed :          (* a continuation line starting with '#' is read as a comment *)
   let d := [[([65], [98; 10; 35; 99])]]%N in lossy_from_str (print_doc d) <> Ok d.
+Proof. vm_compute. intros H. inversion H. Qed.
+Example C08_cr_guard_needed :            (* a CR inside a line ends the line when the text is read *)
+  let d := [[([65], [97; 13; 98])]]%N in lossy_from_str (print_doc d) <> Ok d.
 Proof. vm_compute. intros H. inversion H. Qed.
 Example C08_leading_space_guard_needed :
   let d := [[([65], [98; 10; 32; 99])]]%N in lossy_from_str (print_doc d) <> Ok d.
